@@ -65,6 +65,11 @@ def _one(v):
             if p.returncode != 0:
                 return v, 'skipped', 'patch does not apply to the current tree: ' + p.stderr.strip()[:200]
         rc, out = _run_check(v['prop'], root, tmp)
+        if v['expect'] == 'no-alarm':
+            # a behaviour-preserving change: the check may pass or abstain (exit 2), but must not report a violation
+            if rc in (0, 2) and 'VIOLATION property=' not in out:
+                return v, 'ok', 'abstained' if rc == 2 else ''
+            return v, 'MISMATCH', f'FALSE ALARM on a behaviour-preserving change, check exited {rc}: ' + ' | '.join(l for l in out.splitlines() if l.startswith(('VIOLATION', '  rule', '  reason')))[:600]
         want = 1 if v['expect'] == 'violation' else 0
         if rc == want and (want == 0 or 'VIOLATION property=' in out):
             return v, 'ok', _first_violation(out)
@@ -102,6 +107,9 @@ def catalogue(pid=None):
                     vs.append({'prop': prop, 'name': f'seeded/{name}', 'kind': 'patch', 'patch': patch, 'expect': 'violation'})
                 for prop in m.get('clean_for', []):
                     vs.append({'prop': prop, 'name': f'seeded/{name}', 'kind': 'patch', 'patch': patch, 'expect': 'clean'})
+                # behaviour-preserving refactorings: no check may raise an alarm (it may abstain)
+                for prop in m.get('abstains_for', []):
+                    vs.append({'prop': prop, 'name': f'seeded/{name}', 'kind': 'patch', 'patch': patch, 'expect': 'no-alarm'})
     if pid:
         vs = [v for v in vs if v['prop'] == pid]
     return vs
